@@ -3,13 +3,16 @@
 package proto
 
 // Verification hook (build tag "verif" only): lets a test harness lower the
-// row cap consulted by checkRows, so that allocations the decoders make by
-// design from in-cap counts stay small under an address-space limit.
+// row cap consulted by checkRows and the string size cap consulted by
+// Reader.StrLen, so that allocations the decoders make by design from in-cap
+// values stay small under an address-space limit.
 // Inactive until VerifSetCaps is called.
 
-var verifRows int
+var verifRows, verifStr int
 
-// VerifSetCaps sets the maximum row count accepted by checkRows; 0 disables.
-func VerifSetCaps(rows int) { verifRows = rows }
+// VerifSetCaps sets the maximum row count accepted by checkRows and the
+// maximum string size accepted by Reader.StrLen; 0 disables.
+func VerifSetCaps(rows, str int) { verifRows, verifStr = rows, str }
 
 func verifRowCap() int { return verifRows }
+func verifStrCap() int { return verifStr }
